@@ -11,8 +11,8 @@ def run(sid):
     prop=sid.split('-')[0]
     t=tempfile.mkdtemp(prefix='cm.',dir='/tmp')
     try:
-        subprocess.run(['rsync','-a','--exclude','.git','/repo/',t+'/repo/'],check=True)
-        r=subprocess.run(['patch','-p1','--batch','-s','-i',os.path.join(d,'patch.diff')],cwd=t+'/repo',capture_output=True,text=True)
+        subprocess.run(['rsync','-a','--exclude','.git','/repo/',t+'/repo/'],check=True); subprocess.run(['git','init','-q'],cwd=t+'/repo')
+        r=subprocess.run(['git','apply',os.path.join(d,'patch.diff')],cwd=t+'/repo',capture_output=True,text=True)
         if r.returncode!=0:
             return sid,{"verdict":"patch does not apply to the current tree (superseded by a later fix: commit)"}
         out={}
